@@ -34,7 +34,7 @@ def eval_handler(f, handler, req_adt, fail=None):
     fields = [x["name"] for x in f.adt(PROTO + req_adt)["variants"][0]["fields"]]
     req = E.struct(f, PROTO + req_adt, **{n: E.Tok("req.%s" % n) for n in fields})
     try:
-        out, hp, ev = E.run_async(f, API + handler, [E.href("self"), req], {"self": E.Tok("rpc-actor")}, oracle)
+        out, hp, ev = E.run_async(f, API + handler, [E.href("self"), req], {"self": E.Tok("rpc-actor")}, oracle, inline=tuple(p for p in f.bodies if p.startswith(API)))
         return E.describe(out, f), log
     except E.Unsupported as e:
         return "UNSUPPORTED-FORM: %s" % e, log
